@@ -31,6 +31,7 @@ def check(ctx, R):
     _io(ctx, R, T, cls, "bulk_read", "bulkRead", "_read_endpoint", "UsbReadFailedError")
     _io(ctx, R, T, cls, "bulk_write", "bulkWrite", "_write_endpoint", "UsbWriteFailedError")
     _timeout_ms(ctx, R, T, cls)
+    _interface(ctx, R, T, cls)
     _device(ctx, R, T)
     from .c12 import _transport_close
     _transport_close(ctx, R, only=("transport.usb_transport.UsbTransport",))      # "use after close raises those errors": the guard needs a reset handle
@@ -188,6 +189,37 @@ def _timeout_ms(ctx, R, T, cls):
     d = T.attr(obj, "_default_transport_timeout_s")
     ok = d[0] == "ite" and {d[2], d[3]} == {("p", "default_transport_timeout_s"), ("c", ctx.fold.need("transport.usb_transport", "DEFAULT_TIMEOUT_S", "USB-ms"))}
     R.check(ok, "USB-ms", init.qualname + "|default", "default timeout = the caller's, else DEFAULT_TIMEOUT_S", "the default timeout is %s" % show(d), init.loc())
+
+
+def _interface(ctx, R, T, cls):
+    """The interface that is searched for (and later claimed) is the ADB one: vendor class 0xff, subclass 0x42, protocol 1."""
+    mod = cls.mod
+    for name, want in (("SUBCLASS", 0x42), ("PROTOCOL", 0x01)):
+        ok, v = (False, None)
+        try:
+            v = ctx.fold.const(mod.name, name)
+            ok = True
+        except Exception:   # noqa
+            pass
+        R.check(ok and v == want, "IFACE", "%s.%s" % (mod.name, name), "%s = 0x%02x (ADB interface)" % (name, want), "%s folds to %r, the ADB interface has 0x%02x" % (name, v, want), mod.relpath)
+    cl = mod.assigns.get("CLASS", [])
+    R.check(len(cl) == 1 and src(cl[0]) == "usb1.CLASS_VENDOR_SPEC", "IFACE", mod.name + ".CLASS", "CLASS = vendor specific", "CLASS is `%s`, the ADB interface is vendor specific" % (src(cl[0]) if cl else "missing"), mod.relpath)
+    f = cls.methods.get("find_adb")
+    if f is None:
+        R.fail("IFACE", cls.qualname + ".find_adb", "find_adb not found", mod.relpath)
+        return
+    calls = [c for n in ctx.cfg(f).live_nodes() for c in node_calls(n) if call_attr(c) == "interface_matcher"]
+    ok = len(calls) == 1 and [src(a) for a in calls[0].args] == ["CLASS", "SUBCLASS", "PROTOCOL"]
+    R.check(ok, "IFACE", f.qualname, "find_adb matches (CLASS, SUBCLASS, PROTOCOL) in that order", "find_adb does not search for the interface (CLASS, SUBCLASS, PROTOCOL)", f.loc())
+    im = ctx.pkg.funcs.get(mod.name + ".interface_matcher")
+    gi = ctx.pkg.funcs.get(mod.name + ".get_interface")
+    if im is not None and gi is not None:
+        rn = [n for n in ctx.cfg(gi).live_nodes() if n.kind == "stmt" and isinstance(n.ast, ast.Return)]
+        okg = len(rn) == 1 and src(rn[0].ast.value).replace(" ", "") == "(setting.getClass(),setting.getSubClass(),setting.getProtocol())"
+        R.check(okg, "IFACE", gi.qualname, "a setting is described by (class, subclass, protocol)", "get_interface returns `%s`" % (src(rn[0].ast.value) if rn else "?"), gi.loc())
+        asg = [s for s in ast.walk(im.node) if isinstance(s, ast.Assign) and isinstance(s.value, ast.Tuple)]
+        oki = any([src(e) for e in s.value.elts] == im.params[:3] for s in asg)
+        R.check(oki, "IFACE", im.qualname, "the matcher compares against (clazz, subclass, protocol) in the same order", "interface_matcher does not compare (clazz, subclass, protocol) in order", im.loc())
 
 
 def _device(ctx, R, T):
